@@ -158,9 +158,11 @@ func kRes(args []string) (string, string) {
 		case "w", "rf": // w:<h>:<n>
 			h := get(f[1])
 			n, _ := strconv.Atoi(f[2])
-			if h == nil || h.bld == nil || *h.dead {
-				break // writing into a closed builder is outside the property
+			if h == nil || h.bld == nil {
+				break
 			}
+			// also into a builder that has been closed: diskbuffer.Close only deals with the file part, a buffer that has not
+			// spilled goes on; what it spills afterwards is removed by the NEXT Close (model: RBuf.shut)
 			data := []byte(strings.Repeat("x", n))
 			if f[0] == "w" {
 				_, _ = h.bld.Write(data)
